@@ -11,7 +11,7 @@ class C03(WigBedProp):
             "set {0, len, every value start/end ±1, every block boundary ±1}, empty ranges included, against one reader "
             "instance: plain, caching, a fresh reader per query, a fresh caching reader per query, the file on disk through open_file "
             "with readers reopened from the original after it has answered queries / opened anew on a reopened handle / "
-            "reopened and caching, and four reopened readers answering concurrently with the original; and bigWigs from the independent "
+            "reopened and caching, four reopened readers answering concurrently with the original, the file behind a BufReader (short reads); files whose index nodes (fan-out 300–700) are wider than any buffer; and bigWigs from the independent "
             "encoder of C10 (bedGraph, variable-step and fixed-step sections with span ≠ step, either byte order, permuted "
             "chromosome ids), same reader modes, judged against the encoded content. "
             "Non-trivial = a query that cuts a value or ends on a block boundary in a multi-section file")
@@ -25,7 +25,8 @@ class C03(WigBedProp):
             o = bbgen.gen_options(r, tier)
             o["ips"] = r.choice([1, 2, 3, 7])
             o["bs"] = r.choice([2, 3, 5])
-            o["reader"] = r.choice(["plain", "cached", "fresh", "freshcached", "reopened", "reopenedmt"])
+            o["reader"] = r.choice(["plain", "cached", "fresh", "freshcached", "reopened", "reopenedmt", "bufreader", "bufreadercached"])
+            names = bbgen.free_chrom_order(r, names, o, tags)
             lines = [bbgen.opt_line(o)] + bbgen.wig_lines(names, sizes, data)
             lines += bbgen.gen_queries(r, names, sizes, data, ["iv", "iv", "vals"], r.range(6, 10), ips=o["ips"])
             tags.add("reader_" + o["reader"])
@@ -33,10 +34,24 @@ class C03(WigBedProp):
             out.append(CaseT(f"q{k}", "wig", [], lines, self.common_tags(o, names, data, tags)))
         # bigWigs no bigtools writer produces: variable-step / fixed-step sections, big-endian, any index layout
         for k in range(400 if tier == "thorough" else 60):
-            c = c10.foreign_case(rng.fork(f"foreign{k}"), f"f{k}", bed=False, readers=("plain", "cached", "fresh", "freshcached", "reopened", "reopenedmt"))
+            c = c10.foreign_case(rng.fork(f"foreign{k}"), f"f{k}", bed=False, readers=("plain", "cached", "fresh", "freshcached", "reopened", "reopenedmt", "bufreader", "bufreadercached"))
             if c is not None:
                 c.tags.add("foreign_file")
                 out.append(c)
+        # index nodes wider than any buffer: fan-out 300–700 with one value per block, so a leaf node of the index is 9–22 KiB
+        # — read through a BufReader (short reads), a plain file and a cursor
+        for g in range(3 if tier != "thorough" else 8):
+            r = rng.fork(f"widenode{g}")
+            bs = r.choice([300, 420, 700])
+            nvals = bs + r.range(-20, 40)
+            data = {"chr1": [(5 * i, 5 * i + 3, bbgen.f32bits(float(1 + i % 9))) for i in range(nvals)], "chr2": [(3, 9, bbgen.f32bits(2.0))]}
+            sizes = {"chr1": 5 * nvals + 10, "chr2": 50}
+            o = {"compress": r.choice([0, 1]), "ips": 1, "bs": bs, "zooms": "none", "pass": 1, "inmem": 1, "rt": "mt", "threads": 2, "chan": 100,
+                 "src": "iter", "sort": "all", "reader": ["bufreader", "bufreadercached", "reopened"][g % 3]}
+            lines = [bbgen.opt_line(o)] + bbgen.wig_lines(["chr1", "chr2"], sizes, data)
+            lines += [f"Q iv chr1 0 {sizes['chr1']}", f"Q iv chr1 {5 * 260} {5 * 260 + 40}", f"Q vals chr1 {5 * (nvals - 3)} {5 * nvals}", "Q iv chr2 0 50",
+                      f"Q iv chr1 {5 * 255} {5 * 258}"]
+            out.append(CaseT(f"wide{g}", "wig", [], lines, {"index_node_wider_than_a_buffer", "nt", "multi_section", "reader_" + o["reader"]}))
         # the caching reader's reset: a file with more than 5000 one-value blocks, queried through the caching reader in
         # an order that fills the block cache past its limit and then revisits early blocks
         nblocks = 5200
